@@ -312,7 +312,8 @@ def _sign_patterns(fn):
 def _r4(ctx, pkg, pfn, pname):
     ci = pkg.cls("Species")
     n = 0
-    fns = [(pname, pfn)] + [(k, ci.methods[k]) for k in ("charge", "basename") if k in ci.methods]
+    # (with the private helpers they call put back: a shared sign-stripping helper is read where it is used)
+    fns = [(pname, pfn)] + [(k, pkg.expanded("Species", k)) for k in ("charge", "basename") if k in ci.methods]
     for name, fn in fns:
         for line, pat, anchored in _sign_patterns(fn):
             n += 1
